@@ -7,7 +7,7 @@
             | OP1 <neg|tostring> value
             | CASE <op2 name> value(Maybe) value      the payload bound by a `case` arm, then payload <op> value
             | FN <min|max|abs|clamp|sign|div|floor|rem|isjust|isnone|ordefault|index> <n> value*n
-            | LIST value <n> lop*n      lop ::= push v | prepend v | pop | get I | geteq I v | getcase I v | getisjust I | getisnone I
+            | LIST value <n> lop*n      lop ::= push v | prepend v | pop | popeq v | get I | geteq I v | getcase I v | getisjust I | getisnone I
                                               | getordefault I v | set I v | len | map addk v
                                               | filter <ltk|eqk|nek> v | fold add v | find <ltk|eqk|nek> v
                                               | contains v | last
@@ -147,6 +147,7 @@ let list_step (l : value) (toks : string list) : (value * value) * string list =
   | "pop" :: r -> (force (rt_list_pop l), r)
   | "get" :: i :: r -> ((l, force (rt_list_get l (z_of_tok i))), r)
   | "geteq" :: i :: r -> let (v, r) = parse_value r in ((l, vbool (rt_eq (force (rt_list_get l (z_of_tok i))) v)), r)
+  | "popeq" :: r -> let (v, r) = parse_value r in let (l', o) = force (rt_list_pop l) in ((l', vbool (rt_eq o v)), r)
   | "getcase" :: i :: r -> let (v, r) = parse_value r in ((l, case_obs (force (rt_list_get l (z_of_tok i))) v), r)
   | "getisjust" :: i :: r -> ((l, vbool (force (rt_is_just (force (rt_list_get l (z_of_tok i)))))), r)
   | "getisnone" :: i :: r -> ((l, vbool (force (rt_is_none (force (rt_list_get l (z_of_tok i)))))), r)
